@@ -17,6 +17,7 @@ func tablesFacts(l *loader, out string, all map[string]any) {
 	allowedFacts(l, out, all)
 	factoryFacts(l, out, all)
 	accessorFacts(l, out, all)
+	pathsFacts(l, out, all)
 }
 
 // ---- allowed attributes (C17) -------------------------------------------------------------------
@@ -433,4 +434,160 @@ func accessorFacts(l *loader, out string, all map[string]any) {
 	all["defaults"] = defs
 	all["comp_tags"] = tagOf
 	_ = token.NoPos
+}
+
+// ---- paths (C08): every public entry installs the per-render store before building components; the
+// process-wide getters are only reached as a fallback ---------------------------------------------
+type entryFact struct {
+	Func       string `json:"func"`
+	SetsStore  bool   `json:"sets_store_before_create"`
+	CallsBuild bool   `json:"calls_create_component"`
+}
+type legacySite struct {
+	File    string `json:"file"`
+	Line    int    `json:"line"`
+	Func    string `json:"func"`
+	Callee  string `json:"callee"`
+	Guarded bool   `json:"guarded"`
+}
+
+func pathsFacts(l *loader, out string, all map[string]any) {
+	p := modPath + "/mjml"
+	info := l.infos[p]
+	var entries []entryFact
+	for _, f := range l.files[p] {
+		for _, d := range f.Decls {
+			fd, ok := d.(*ast.FuncDecl)
+			if !ok || fd.Body == nil || fd.Recv != nil || !fd.Name.IsExported() {
+				continue
+			}
+			// an entry point is an exported function that (transitively through local helpers is not
+			// followed) calls CreateComponent directly
+			var createPos, storePos token.Pos
+			ast.Inspect(fd.Body, func(n ast.Node) bool {
+				switch x := n.(type) {
+				case *ast.CallExpr:
+					if id, ok := x.Fun.(*ast.Ident); ok && id.Name == "CreateComponent" && createPos == token.NoPos {
+						createPos = x.Pos()
+					}
+				case *ast.AssignStmt:
+					for _, lhs := range x.Lhs {
+						if sel, ok := lhs.(*ast.SelectorExpr); ok && sel.Sel.Name == "GlobalAttributes" && storePos == token.NoPos {
+							storePos = x.Pos()
+						}
+					}
+				}
+				return true
+			})
+			if fd.Name.Name == "CreateComponent" {
+				continue
+			}
+			if createPos != token.NoPos {
+				entries = append(entries, entryFact{fd.Name.Name, storePos != token.NoPos && storePos < createPos, true})
+			}
+		}
+	}
+	_ = info
+	var sites []legacySite
+	for _, pk := range sortedKeys(l.files) {
+		if !isProdPkg(pk) || short(pk) == "mjml/globals" {
+			continue
+		}
+		pinfo := l.infos[pk]
+		for _, f := range l.files[pk] {
+			ast.Inspect(f, func(n ast.Node) bool {
+				call, ok := n.(*ast.CallExpr)
+				if !ok {
+					return true
+				}
+				q := qualifiedCallee(pinfo, call)
+				if !strings.HasPrefix(q, modPath+"/mjml/globals.Get") {
+					return true
+				}
+				fd := enclosing(f, call.Pos())
+				guarded := false
+				fn := ""
+				if fd != nil {
+					fn = funcName(fd)
+					// an earlier "if ... GlobalAttributes != nil { ... return ... }" (or a reassignment of the
+					// getter variable under that condition) makes this call the fallback
+					ast.Inspect(fd.Body, func(m ast.Node) bool {
+						ifs, ok := m.(*ast.IfStmt)
+						if !ok || ifs.Pos() > call.Pos() && !(ifs.Pos() <= call.Pos() && call.End() <= ifs.End()) {
+							return true
+						}
+						if strings.Contains(types.ExprString(ifs.Cond), "GlobalAttributes != nil") {
+							if containsReturn(ifs.Body) || ifs.Pos() > call.Pos() {
+								guarded = true
+							}
+							// getter variable pattern: getGlobal := globals.Get...; if cond { getGlobal = store.Get... }
+							ast.Inspect(ifs.Body, func(k ast.Node) bool {
+								if _, ok := k.(*ast.AssignStmt); ok {
+									guarded = true
+								}
+								return true
+							})
+						}
+						return true
+					})
+					// also the pattern where the legacy getter is only the initial value of a variable that the
+					// guarded branch overrides (call appears as a bare function value, handled above)
+				}
+				file, line := l.pos(call.Pos())
+				sites = append(sites, legacySite{file, line, fn, shortCallee(q), guarded})
+				return true
+			})
+			// function values (not calls): getGlobal := globals.GetGlobalAttribute
+			ast.Inspect(f, func(n ast.Node) bool {
+				as, ok := n.(*ast.AssignStmt)
+				if !ok {
+					return true
+				}
+				for _, rhs := range as.Rhs {
+					if sel, ok := rhs.(*ast.SelectorExpr); ok {
+						if id, ok := sel.X.(*ast.Ident); ok {
+							if pn, ok := pinfo.Uses[id].(*types.PkgName); ok && pn.Imported().Path() == modPath+"/mjml/globals" && strings.HasPrefix(sel.Sel.Name, "Get") {
+								fd := enclosing(f, as.Pos())
+								guarded := false
+								fn := ""
+								if fd != nil {
+									fn = funcName(fd)
+									ast.Inspect(fd.Body, func(m ast.Node) bool {
+										if ifs, ok := m.(*ast.IfStmt); ok && ifs.Pos() > as.Pos() && strings.Contains(types.ExprString(ifs.Cond), "GlobalAttributes != nil") {
+											guarded = true
+										}
+										return true
+									})
+								}
+								file, line := l.pos(as.Pos())
+								sites = append(sites, legacySite{file, line, fn, "globals." + sel.Sel.Name + " (function value)", guarded})
+							}
+						}
+					}
+				}
+				return true
+			})
+		}
+	}
+	var sb strings.Builder
+	sb.WriteString(header)
+	sb.WriteString("Definition entry_points : list (string * bool) := [\n")
+	for i, e := range entries {
+		if i > 0 {
+			sb.WriteString(";\n")
+		}
+		fmt.Fprintf(&sb, "  (%s, %v)", coqStr(e.Func), e.SetsStore)
+	}
+	sb.WriteString("].\n")
+	sb.WriteString("Definition legacy_getter_sites : list (string * N * string * bool) := [\n")
+	for i, s := range sites {
+		if i > 0 {
+			sb.WriteString(";\n")
+		}
+		fmt.Fprintf(&sb, "  (%s, %d, %s, %v)", coqStr(s.File), s.Line, coqStr(s.Func), s.Guarded)
+	}
+	sb.WriteString("].\n")
+	writeFile(out, "Paths.v", sb.String())
+	all["entry_points"] = entries
+	all["legacy_getter_sites"] = sites
 }
